@@ -92,7 +92,7 @@ Proof.
   rewrite forallb_forall in Hlt, Hent.
   exists fd, w, l, lv. split; [reflexivity|]. split; [exact Ew|]. split; [exact Elv|]. split; [exact Hf|].
   split; [exact Hl'|]. split; [now subst v|]. split; [exact Hdeps|]. split.
-  - apply Forall_forall. intros dd Hdd. now apply Hlt.
+  - apply Forall_forall. intros dd Hdd. apply (dep_ok_act fb f dd Hf). now apply Hlt.
   - specialize (Hent lv (nth_error_In _ _ Elv)). rewrite forallb_forall in Hent. apply Forall_forall. intros e He.
     specialize (Hent e He). destruct (ff_complex fd); exact Hent.
 Qed.
